@@ -435,7 +435,62 @@ fn judge(c: &Case, r: &Rendered) -> Result<(usize, usize), (Kind, String)> {
     Ok(res)
 }
 
+/// equal inputs render as the empty string whatever the builder's deadline says (the algorithms
+/// recognise equal inputs before they consult the clock)
+fn equal_inputs_with_deadline(c: &Case) -> Result<(), String> {
+    let header = HEADERS[(c.header % 3) as usize];
+    for variant in 0..3 {
+        let what = ["deadline(5 s ago)", "timeout(0)", "deadline(far) + virtual clock expiring at the first probe"][variant];
+        let out = guard(|| {
+            let mut cfg = config(c.alg);
+            match variant {
+                0 => {
+                    if let Some(past) = std::time::Instant::now().checked_sub(std::time::Duration::from_secs(5)) {
+                        cfg.deadline(past);
+                    }
+                }
+                1 => {
+                    cfg.timeout(std::time::Duration::from_secs(0));
+                }
+                _ => {
+                    cfg.deadline(far_future());
+                    similar::verif::clock::install(Some(0));
+                }
+            }
+            let s = if c.bytes || c.old.as_str().is_none() {
+                let d = cfg.diff_lines(&c.old.0[..], &c.new.0[..]);
+                let mut ud = d.unified_diff();
+                ud.context_radius(c.radius);
+                if let Some((a, b)) = header {
+                    ud.header(a, b);
+                }
+                ud.to_string()
+            } else {
+                let d = cfg.diff_lines(c.old.as_str().unwrap(), c.new.as_str().unwrap());
+                let mut ud = d.unified_diff();
+                ud.context_radius(c.radius);
+                if let Some((a, b)) = header {
+                    ud.header(a, b);
+                }
+                ud.to_string()
+            };
+            similar::verif::clock::install(None);
+            s
+        })?;
+        if !out.is_empty() {
+            return Err(format!("equal inputs diffed with {} render as {:?}, expected the empty string", what, out));
+        }
+    }
+    Ok(())
+}
+
 pub fn check_case(c: &Case, obs: &mut Obs) -> Verdict {
+    if c.old == c.new {
+        if let Err(m) = equal_inputs_with_deadline(c) {
+            return Verdict::Fail(format!("{} radius {}: {}", alg_name(c.alg), c.radius, m));
+        }
+        obs.class("equal inputs (also rendered under expired deadlines)");
+    }
     let r = match render_case(c) {
         Ok(r) => r,
         Err(p) => return Verdict::Fail(format!("rendering: {}", p)),
